@@ -1,6 +1,7 @@
 #include <symengine/ntheory.h>
 #include <symengine/ntheory_funcs.h>
 #include <symengine/prime_sieve.h>
+#include <limits>
 
 namespace SymEngine
 {
@@ -43,9 +44,12 @@ RCP<const Basic> primepi(const RCP<const Basic> &arg)
         }
     }
     if (is_a_Number(*arg) or is_a<Constant>(*arg)) {
-        unsigned int num
-            = (unsigned int)down_cast<const Integer &>(*SymEngine::floor(arg))
-                  .as_uint();
+        unsigned long num_
+            = down_cast<const Integer &>(*SymEngine::floor(arg)).as_uint();
+        if (num_ > std::numeric_limits<unsigned int>::max()) {
+            throw NotImplementedError("primepi: argument too large");
+        }
+        unsigned int num = (unsigned int)num_;
         Sieve::iterator pi(num);
         unsigned long int p = 0;
         while ((pi.next_prime()) <= num) {
